@@ -218,6 +218,14 @@ func QuantileCI(n int, q, confidence float64) QuantileCIResult {
 		}
 		l = floorInt(math.Floor(l1-0.5)+0.5) + 1
 		r = floorInt(math.Ceil(r1-0.5)+0.5) + 1
+		if r <= l {
+			// For very low confidence levels the rounded band
+			// can be empty (for example, confidence 0 when the
+			// mean n*q is a half-integer). The interval must
+			// contain at least one bucket, as in the exact
+			// branch.
+			r = l + 1
+		}
 
 		if debug {
 			fmt.Printf("  [%v,%v] rounds to [%v,%v]\n", l1, r1, l, r)
@@ -243,7 +251,7 @@ func QuantileCI(n int, q, confidence float64) QuantileCIResult {
 		if debug {
 			fmt.Printf("  unbiased %v, biased %v\n", res.Confidence, cdf(l, rBiased))
 		}
-		if aBiased := cdf(l, rBiased); aBiased >= confidence && aBiased < res.Confidence {
+		if aBiased := cdf(l, rBiased); rBiased > l && aBiased >= confidence && aBiased < res.Confidence {
 			if debug {
 				fmt.Printf("  taking biased\n")
 			}
